@@ -335,14 +335,18 @@ def _moves_with(m, body, dof):
     return False
 
 
-def drag_guard_geoms(L, m, d, i, j):
-    """ellipsoid-fluid geoms on bodies that move with dof i AND dof j for which sqrt(proj_num^3 * proj_denom) of mjd_viscous_drag is
-    below mjMINVAL, i.e. the absolute guard of the projected-area derivative dominates (semi-axes of a few cm at moderate speed)"""
+def guard_geoms(L, m, d, i, j):
+    """ellipsoid-fluid geoms on bodies that move with dof i AND dof j for which an absolute mjMINVAL guard of the ellipsoid fluid
+    model is active at the current velocity (semi-axes of a few cm at moderate speed). Returns (drag, kutta):
+    drag  - sqrt(proj_num^3 * proj_denom) < mjMINVAL: the guard of the projected-area derivative in mjd_viscous_drag
+            (engine_derivative.c) dominates, the force code (mj_viscousForces) has no such guard;
+    kutta - kutta coefficient != 0 and |v| * proj_denom < mjMINVAL: the guard of cos_alpha in the Kutta-lift FORCE
+            (engine_passive.c mj_viscousForces) clamps the force, mjd_kutta_lift differentiates the unclamped expression."""
     ng = m.n("ngeom")
     G = m["geom_fluid"].reshape(ng, -1)
-    out = []
+    drag, kutta = [], []
     if not m.opt["density"] > 0:
-        return out
+        return drag, kutta
     for g in range(ng):
         if G[g, 0] <= 0:
             continue
@@ -359,29 +363,51 @@ def drag_guard_geoms(L, m, d, i, j):
         num = a * v[0] ** 2 + b * v[1] ** 2 + c * v[2] ** 2
         den = a * a * v[0] ** 2 + b * b * v[1] ** 2 + c * c * v[2] ** 2
         if np.sqrt(num ** 3 * den) < float(E.mjMINVAL):
-            out.append(g)
-    return out
+            drag.append(g)
+        if G[g, 4] != 0 and np.linalg.norm(v) * den < float(E.mjMINVAL):
+            kutta.append(g)
+    return drag, kutta
 
 
-def drag_guard_confirmed(L, m, d, T, qvel, bias, i, j, tol, base):
-    """mechanism confirmation for '...ellipsoid-drag-area-derivative-clamped-by-mjMINVAL-guard' (audit B2: the former model-wide
-    predicate relabelled every fluid-family mismatch of a model that merely contains one small slow geom). Requires (a) a
-    guard-active ellipsoid geom on a body that moves with dof i and dof j, and (b) a term-removal counterfactual: with blunt drag
-    coefficient := slender drag coefficient on exactly those geoms, Aproj_coef = density*|v|*(blunt - slender) = 0 removes the
-    projected-area derivative term from mjd_viscous_drag AND the projected-area dependence from the drag force (quad_coef becomes
-    density*coef*A_max), everything else (Kutta, Magnus, added mass, viscous torque, inertia-box geoms, the other geoms) unchanged;
-    the signature is used only if that closes the gap of this entry."""
-    geoms = drag_guard_geoms(L, m, d, i, j)
-    if not geoms:
-        return False
+GUARD = ":ellipsoid-drag-area-derivative-clamped-by-mjMINVAL-guard"
+KUTTA = ":ellipsoid-kutta-lift-force-clamped-by-mjMINVAL-guard-derivative-unclamped"
+
+
+def fluid_mechanisms(L, m, d, T, qvel, bias, i, j, tol, base):
+    """mechanism confirmation inside the fluid family (audit B2: the former model-wide predicate relabelled every fluid-family
+    mismatch of a model that merely contains one small slow geom). Returns the list of CONFIRMED mechanism suffixes ([] => plain
+    'fluid-term', which is not a known finding). Each known mechanism needs (a) a guard-active ellipsoid geom on a body that moves
+    with dof i and dof j and (b) a term-removal counterfactual on exactly those geoms:
+      GUARD: blunt drag coefficient := slender drag coefficient, so Aproj_coef = density*|v|*(blunt - slender) = 0 removes the
+             projected-area derivative term from mjd_viscous_drag and the projected-area dependence from the drag force;
+      KUTTA: kutta lift coefficient := 0 removes the Kutta-lift force and its derivative;
+    everything else (Magnus, added mass, viscous torque, inertia-box geoms, the other geoms) is unchanged. A mechanism is confirmed if
+    its removal alone closes the gap of this entry (> 95 % of the error gone and within tolerance); if neither alone does but both
+    together do, both are confirmed (each then carries more than 5 % of the error)."""
+    drag, kutta = guard_geoms(L, m, d, i, j)
+    if not drag and not kutta:
+        return []
     G = m["geom_fluid"].reshape(m.n("ngeom"), -1)
-    saved = G[geoms, 1].copy()
-    try:
-        G[geoms, 1] = G[geoms, 2]
-        Dx, Fx = _entry(L, m, T, qvel, bias)
-        return bool(_closed(Dx, Fx, i, j, tol, base))
-    finally:
-        G[geoms, 1] = saved
+    saved = G.copy()
+
+    def closed_with(rm_drag, rm_kutta):
+        try:
+            if rm_drag:
+                G[drag, 1] = G[drag, 2]
+            if rm_kutta:
+                G[kutta, 4] = 0.0
+            Dx, Fx = _entry(L, m, T, qvel, bias)
+            return bool(_closed(Dx, Fx, i, j, tol, base))
+        finally:
+            G[:] = saved
+
+    if drag and closed_with(True, False):
+        return [GUARD]
+    if kutta and closed_with(False, True):
+        return [KUTTA]
+    if drag and kutta and closed_with(True, True):
+        return [GUARD, KUTTA]
+    return []
 
 
 def actfrc_clamp_confirmed(L, m, d, T, qvel, bias, i, j, tol, err_signed):
@@ -429,8 +455,11 @@ def diagnose(L, m, d, T, qvel, bias, i, j, F2, Dan, tol):
     rho, mu = float(m.opt["density"]), float(m.opt["viscosity"])
     out = "unattributed"
     base = abs(Dan[i, j] - F2[i, j])       # a family is responsible if switching it off removes >95% of the error
-    GUARD = ":ellipsoid-drag-area-derivative-clamped-by-mjMINVAL-guard"
     CLAMP = ":joint-actuatorfrcrange-clamp-ignored"
+
+    def fluid_names(b):
+        mechs = fluid_mechanisms(L, m, d, T, qvel, bias, i, j, tol, b)
+        return "|".join("fluid-term" + x for x in mechs) if mechs else "fluid-term"
 
     def fluid(on):
         m.opt["density"], m.opt["viscosity"] = (rho, mu) if on else (0.0, 0.0)
@@ -438,10 +467,8 @@ def diagnose(L, m, d, T, qvel, bias, i, j, F2, Dan, tol):
     try:
         fluid(False)
         if (rho > 0 or mu > 0) and _closed(*_entry(L, m, T, qvel, bias), i, j, tol, base):
-            out = "fluid-term"
             fluid(True)
-            if drag_guard_confirmed(L, m, d, T, qvel, bias, i, j, tol, base):
-                out += GUARD
+            out = fluid_names(base)
         else:
             fluid(True)
             m.opt["disableflags"] = dis0 | E.mjDSBL_ACTUATION
@@ -460,11 +487,10 @@ def diagnose(L, m, d, T, qvel, bias, i, j, F2, Dan, tol):
                     m.opt["disableflags"] = dis0 | E.mjDSBL_ACTUATION
                     fluid(False)
                     if (rho > 0 or mu > 0) and _closed(*_entry(L, m, T, qvel, bias), i, j, tol, base):
-                        fl, ac = "fluid-term", "actuator-term"
+                        ac = "actuator-term"
                         fluid(True)                                     # actuation off, fluid on: the fluid share of the error
                         Dx, Fx = _entry(L, m, T, qvel, bias)
-                        if drag_guard_confirmed(L, m, d, T, qvel, bias, i, j, tol, abs(Dx[i, j] - Fx[i, j])):
-                            fl += GUARD
+                        fl = fluid_names(abs(Dx[i, j] - Fx[i, j]))
                         m.opt["disableflags"] = dis0                    # fluid off, actuation on: the actuator share
                         fluid(False)
                         Dx, Fx = _entry(L, m, T, qvel, bias)
